@@ -747,6 +747,7 @@ def rules(ck, P):
         ck.check(si is not None and ui is not None and si < ui, "R-PM-SORT", "sort-before-serialize", "entries are sorted by tile_id before any slice is serialised", "entries are serialised without a preceding sort by tile_id", ir.loc(ad))
     wire.pm_layout_rules(ck, P)
     wire.pm_directory_codec_rules(ck, P)
+    wire.vt_types_rules(ck, P)
     # ---------------- R-PM-LEAVES: leaf directories partition the sorted entries
     bl = [b for b in P.bodies if b["q"].startswith(ad["q"] + "::")] if ad else []
     bl = [b for b in bl if ir.contains(b["body"], lambda y: y.get("k") == "mcall" and (y.get("q") or "").endswith("EntriesSliceV3::slice"))]
